@@ -570,7 +570,8 @@ func (x *Exec) appendOp(st *State, fr *Frame, in ssa.Instruction, cc *ssa.CallCo
 	x.assume(st, "(forall (("+q+" Int)) (! (=> (and (<= 0 "+q+") (< "+q+" "+slen+")) (= (select "+na+" "+q+") (select (select "+arr+" (s_arr "+s+")) (at (s_off "+s+") "+q+")))) :pattern ((select "+na+" "+q+"))))")
 	if n, ok := numeral(simplifyLen(tlen, st)); ok && n <= 8 {
 		for i := int64(0); i < n; i++ {
-			x.assume(st, eq(app("select", na, app("+", slen, fmt.Sprint(i))), tget(fmt.Sprint(i))))
+			// addressed the way the new slice (offset 0) will address it, so that it can serve as a witness
+			x.assume(st, eq(app("select", na, app("at", "0", addT(slen, fmt.Sprint(i)))), tget(fmt.Sprint(i))))
 		}
 	} else {
 		q2 := x.fresh("i")
@@ -621,8 +622,13 @@ func (x *Exec) copyOp(st *State, fr *Frame, in ssa.Instruction, cc *ssa.CallComm
 	q := x.fresh("i")
 	dArr := app("select", arr, app("s_arr", d))
 	sArr := app("select", arr, app("s_arr", s))
-	inr := "(and (<= (s_off " + d + ") " + q + ") (< " + q + " (+ (s_off " + d + ") " + n + ")))"
-	x.assume(st, "(forall (("+q+" Int)) (! (= (select "+na+" "+q+") (ite "+inr+" (select "+sArr+" (+ (s_off "+s+") (- "+q+" (s_off "+d+")))) (select "+dArr+" "+q+"))) :pattern ((select "+na+" "+q+"))))")
+	offd, offs := app("s_off", d), app("s_off", s)
+	// relative formulation (both directions usable as triggers)
+	x.assume(st, "(forall (("+q+" Int)) (! (=> (and (<= 0 "+q+") (< "+q+" "+n+")) (= (select "+na+" (at "+offd+" "+q+")) (select "+sArr+" (at "+offs+" "+q+")))) :pattern ((select "+na+" (at "+offd+" "+q+"))) :pattern ((select "+sArr+" (at "+offs+" "+q+")))))")
+	x.assume(st, "(forall (("+q+" Int)) (! (=> (or (< "+q+" "+offd+") (>= "+q+" (+ "+offd+" "+n+"))) (= (select "+na+" "+q+") (select "+dArr+" "+q+"))) :pattern ((select "+na+" "+q+"))))")
+	for _, f := range x.sumFuncs(et) {
+		x.assume(st, eq(app(f, na, app("at", offd, "0"), app("at", offd, n)), app(f, sArr, app("at", offs, "0"), app("at", offs, n))))
+	}
 	// when n == 0 nothing is written (also covers nil destination)
 	x.setArr(st, name, srt, ite(eq(n, "0"), arr, app("store", arr, app("s_arr", d), na)))
 	return Term{n, types.Typ[types.Int]}
